@@ -1235,6 +1235,8 @@ pub fn run(rep: &Arc<Report>) {
     let (api_cmp, api_variants) = crate::props::apivar::run(rep, &[Dialect::Mysql, Dialect::Postgres]);
     rep.set("api_variant_comparisons", json!(api_cmp));
     rep.set("api_variants", json!(api_variants));
+    let (em, _) = crate::props::exprapi::run(rep, &[Dialect::Mysql, Dialect::Postgres]);
+    rep.set("expression_methods_parsed_and_compared", json!(em));
     rep.set("states", json!(states + xc));
     rep.set("transitions", json!(transitions));
     rep.set("max_depth", json!({"select": ds, "dml": dd}));
@@ -1256,6 +1258,9 @@ pub fn run(rep: &Arc<Report>) {
 pub fn replay(case: &serde_json::Value) -> Option<String> {
     if case["kind"].as_str() == Some("api-variant") {
         return crate::props::apivar::replay(case);
+    }
+    if case["kind"].as_str() == Some("expr-method") {
+        return crate::props::exprapi::replay(case);
     }
     if case["kind"].as_str() == Some("construct") {
         let name = case["name"].as_str().unwrap_or("");
